@@ -280,6 +280,33 @@ class Interp(ExprMixin, WhileMixin):
                 v = NONE
             except _Return as r:
                 v = r.v
+            except AnalysisError as ae:
+                # a loop outside the supported forms: the function is replaced by what its signature promises (an assumption that
+                # the evidence records), if the promise is simple enough; anything that needs more than that gets no verdict
+                if "`while` loop outside the supported forms" not in str(ae) or toplevel:
+                    raise
+                v = self._value_of_annotation(getattr(fn, "returns", None), module)
+                if v is None:
+                    raise
+                self.event("summarised_by_annotation", func=key, annotation=ast.unparse(fn.returns), reason=str(ae)[:120])
+                from . import icommon as _ic
+                _ic.ANNOTATION_SUMMARIES.add((key, ast.unparse(fn.returns)))
+                raised = []
+                for n in _walk_own(fn):
+                    if isinstance(n, ast.Raise) and n.exc is not None:
+                        try:
+                            ev_ = self.eval(n.exc, dict(env), module)
+                        except (AnalysisError, _Raise, PathAbort):
+                            continue
+                        if isinstance(ev_, RefV):
+                            ev_ = self.make_exc(ev_.qual)
+                        if not any(repr(ev_) == repr(x) for x, _ in raised):
+                            raised.append((ev_, module.loc(n)))
+                if raised:
+                    c = self.choose(1 + len(raised), f"raises@{key}")
+                    if c:
+                        self.event("raise", exc=raised[c - 1][0], func=key)
+                        raise _Raise(raised[c - 1][0], raised[c - 1][1])
             if is_gen:
                 v = env["__yield__"]
             self.observed_returns.setdefault(key, []).append(_snapshot(v))
@@ -287,6 +314,21 @@ class Interp(ExprMixin, WhileMixin):
         finally:
             self.stack.pop()
             self.try_stack = saved_try
+
+    def _value_of_annotation(self, ann, module: Module) -> Optional[V]:
+        if ann is None:
+            return None
+        t = ast.unparse(ann).replace("typing.", "")
+        import re as _re
+        scalar = {"str": "str", "int": "int", "float": None, "bool": None}
+        if t in scalar:
+            return Sym("annotated", t, hint=scalar[t])
+        m = _re.match(r"^(List|list|Sequence|Iterable|Iterator|Generator|Tuple|tuple)\[(str|int)(?:, \.\.\.|, None, None)?\]$", t)
+        if m:
+            al = AbsList(Sym("annotated", m.group(2), hint=m.group(2)), 0)
+            al.created_in = "summary"  # type: ignore[attr-defined]
+            return al
+        return None
 
     def bind_params(self, module: Module, fn, args: List[V], kwargs: Dict[str, V], env: Dict[str, V]):
         a = fn.args
@@ -716,11 +758,49 @@ class Interp(ExprMixin, WhileMixin):
     def exec_for(self, st: ast.For, env: Dict[str, V], module: Module):
         it = self.resolve_alt(self.eval(st.iter, env, module))
         self._broke = False
-        self.iterate(it, lambda item: self._for_body(st, item, env, module), module, st)
+        # text accumulated across the iterations of an abstract loop (s += sep + piece) is recognised as a join
+        snaps: Dict[int, Dict[str, V]] = {0: {k: v for k, v in env.items() if self._is_text(v)}}
+        overs: List[V] = []
+        saved_hook = getattr(self, "_loop_round_hook", None)
+
+        def hook(rnd, over):
+            snaps[rnd] = {k: v for k, v in env.items() if self._is_text(v)}
+            if rnd == 2:
+                overs.append(over)
+
+        self._loop_round_hook = hook
+        try:
+            self.iterate(it, lambda item: self._for_body(st, item, env, module), module, st)
+        finally:
+            self._loop_round_hook = saved_hook
+        if 1 in snaps and 2 in snaps and overs:
+            self._fold_text_accumulators(env, snaps, overs[-1])
         broke, self._broke = self._broke, False
         # the else clause runs only when the loop was not left through `break`
         if st.orelse and not broke:
             self.exec_block(st.orelse, env, module)
+
+    @staticmethod
+    def _is_text(v) -> bool:
+        return isinstance(v, Str) or (isinstance(v, Const) and isinstance(v.v, str))
+
+    def _fold_text_accumulators(self, env, snaps, over):
+        for name, v0 in snaps[0].items():
+            v1, v2 = snaps[1].get(name), snaps[2].get(name)
+            if v1 is None or v2 is None or env.get(name) is not v2:
+                continue
+            p0, p1, p2 = ([q for q in to_str_parts(x) if not (q[0] == "lit" and q[1] == "")] for x in (v0, v1, v2))
+            if repr(p1[:len(p0)]) != repr(p0) or repr(p2[:len(p1)]) != repr(p1):
+                continue
+            d1, d2 = p1[len(p0):], p2[len(p1):]
+            if not d1 or len(d2) < len(d1):
+                continue
+            sep_parts, tail = d2[:len(d2) - len(d1)], d2[len(d2) - len(d1):]
+            if repr(tail) != repr(d1) or any(q[0] != "lit" for q in sep_parts):
+                continue
+            sep = "".join(q[1] for q in sep_parts)
+            piece = d1[0][1] if len(d1) == 1 and d1[0][0] == "dyn" and not d1[0][2] else Str(list(d1))
+            env[name] = Str(list(p0) + [("join", Const(sep), piece, over)])
 
     def _for_body(self, st: ast.For, item: V, env, module):
         self.assign(st.target, item, env, module)
@@ -803,8 +883,18 @@ class Interp(ExprMixin, WhileMixin):
         self.loop_ctx.append(over)
         try:
             # two rounds so that loop-carried values reach their join
-            body(elem)
-            body(elem)
+            hook = getattr(self, "_loop_round_hook", None)
+            first, later = elem, elem
+            if isinstance(elem, PyTuple) and elem.items and isinstance(elem.items[0], Sym) and elem.items[0].op == "index":
+                # enumerate(): the first iteration has index 0, every later one a positive index
+                first = PyTuple([Const(0)] + list(elem.items[1:]))
+                later = PyTuple([Sym("posindex", elem.items[0].args[0] if elem.items[0].args else None, hint="int")] + list(elem.items[1:]))
+            body(first)
+            if hook:
+                hook(1, over)
+            body(later)
+            if hook:
+                hook(2, over)
         finally:
             self.loop_ctx.pop()
 
@@ -952,6 +1042,8 @@ class Interp(ExprMixin, WhileMixin):
         v = self.resolve_alt(v)
         if isinstance(v, Const):
             return bool(v.v)
+        if isinstance(v, Sym) and v.op == "posindex":
+            return True  # enumerate() index of an iteration after the first
         if isinstance(v, Str):
             if v.is_const():
                 return bool(v.const())
